@@ -126,7 +126,7 @@ theorem star_pointer (env : Env) (e : GoType) (s : Str) :
     star env (.pointer e) (if extraStar env e then '*' :: '*' :: s else s) = '*' :: star env e s := by
   unfold star
   simp only [extraStar]
-  cases extraStar env e <;> simp
+  by_cases h : extraStar env e = true <;> simp [h]
 
 set_option linter.unusedVariables false in
 mutual
@@ -134,7 +134,9 @@ theorem real_eq_go (q : Str → Str) (env : Env) : ∀ t : GoType, strOk env t =
     star env t (strC env t) = goStr q env t
   | .alias _ a, h => by
     have ih := real_eq_go q env a (by simpa [strOk] using h)
-    simpa [star, extraStar, strC, goStr] using ih
+    unfold star at ih ⊢
+    simp only [extraStar, strC, goStr]
+    exact ih
   | .basic k, _ => by simp [star, extraStar, strC, goStr]
   | .pointer e, h => by
     have ih := real_eq_go q env e (by simpa [strOk] using h)
@@ -166,7 +168,7 @@ theorem real_eq_go (q : Str → Str) (env : Env) : ∀ t : GoType, strOk env t =
     simp [star, extraStar, strC, goStr, methods_eq_go q env ms true (by simpa [strOk] using h)]
   | .named d pkg name sc targs, h => by
     simp only [strOk, Bool.and_eq_true, Bool.not_eq_true'] at h
-    simp [star, extraStar, strC, goStr, h.1, targs_eq_go q env targs h.2]
+    cases pkg <;> simp [star, extraStar, strC, goStr, h.1, targs_eq_go q env targs h.2]
 theorem params_eq_go (q : Str → Str) (env : Env) : ∀ (l : TList) (v : Bool), strOkL env l = true →
     paramsC env l v = goParams q env l v
   | .nil, _, _ => by simp [paramsC, goParams]
@@ -174,12 +176,20 @@ theorem params_eq_go (q : Str → Str) (env : Env) : ∀ (l : TList) (v : Bool),
     simp only [strOkL, Bool.and_eq_true] at h
     have iht := real_eq_go q env t h.1.1
     have ihr := params_eq_go q env r v h.2
-    simp only [paramsC, goParams, ihr, iht]
     cases t with
     | slice e =>
       have ihe := real_eq_go q env e (by simpa [strOk] using h.1.1)
-      simp [ihe]
-    | _ => rfl
+      simp only [paramsC, goParams, ihr, iht, ihe]
+    | alias _ _ => simp only [paramsC, goParams, ihr, iht]
+    | basic _ => simp only [paramsC, goParams, ihr, iht]
+    | pointer _ => simp only [paramsC, goParams, ihr, iht]
+    | array _ _ => simp only [paramsC, goParams, ihr, iht]
+    | map _ _ => simp only [paramsC, goParams, ihr, iht]
+    | chan _ _ => simp only [paramsC, goParams, ihr, iht]
+    | func _ _ _ => simp only [paramsC, goParams, ihr, iht]
+    | struct _ => simp only [paramsC, goParams, ihr, iht]
+    | iface _ => simp only [paramsC, goParams, ihr, iht]
+    | named _ _ _ _ _ => simp only [paramsC, goParams, ihr, iht]
 theorem results_eq_go (q : Str → Str) (env : Env) : ∀ l : TList, strOkL env l = true →
     resultsC env l = goResults q env l
   | .nil, _ => by simp [resultsC, goResults]
@@ -203,7 +213,7 @@ theorem methods_eq_go (q : Str → Str) (env : Env) : ∀ (l : MList) (b : Bool)
   | .nil, _, _ => by simp [imethodsC, goMethods]
   | .cons name pkg s r, b, h => by
     simp only [strOkM, Bool.and_eq_true] at h
-    simp [imethodsC, goMethods, real_eq_go q env s h.1, methods_eq_go q env r false h.2]
+    cases pkg <;> simp [imethodsC, goMethods, real_eq_go q env s h.1, methods_eq_go q env r false h.2]
 theorem targs_eq_go (q : Str → Str) (env : Env) : ∀ l : TList, strOkL env l = true →
     targsC env l = goTargs q env l
   | .nil, _ => by simp [targsC, goTargs]
@@ -214,7 +224,9 @@ theorem targ_eq_go (q : Str → Str) (env : Env) : ∀ t : GoType, strOk env t =
     star env t (targBaseC env t) = goTarg q env t
   | .alias _ a, h, g => by
     have ih := targ_eq_go q env a (by simpa [strOk] using h) (by simpa [targOk] using g)
-    simpa [star, extraStar, targBaseC, goTarg] using ih
+    unfold star at ih ⊢
+    simp only [extraStar, targBaseC, goTarg]
+    exact ih
   | .basic k, _, _ => by simp [star, extraStar, targBaseC, goTarg]
   | .pointer e, h, g => by
     have ih := targ_eq_go q env e (by simpa [strOk] using h) (by simpa [targOk] using g)
@@ -243,7 +255,7 @@ theorem targ_eq_go (q : Str → Str) (env : Env) : ∀ t : GoType, strOk env t =
     simp [star, extraStar, targBaseC, goTarg, methods_eq_go q env ms true (by simpa [strOk] using h)]
   | .named d pkg name sc targs, h, g => by
     simp only [strOk, Bool.and_eq_true, Bool.not_eq_true'] at h
-    simp [star, extraStar, targBaseC, goTarg, h.1, targs_eq_go q env targs h.2]
+    cases pkg <;> simp [star, extraStar, targBaseC, goTarg, h.1, targs_eq_go q env targs h.2]
 end
 
 /-! ## method tables -/
